@@ -4,6 +4,7 @@ import (
 	"errors"
 	"fmt"
 	"sort"
+	"strings"
 
 	"github.com/vedadiyan/genql"
 
@@ -14,7 +15,7 @@ import (
 )
 
 var c02Forced = []string{"bin.plus", "bin.minus", "bin.mult", "bin.div", "bin.intdiv", "bin.mod", "bin.bitand", "bin.bitor", "bin.bitxor", "bin.shl", "bin.shr",
-	"un.minus", "un.tilde", "un.bang", "case.else", "case.noelse", "null.operand", "item.star", "ref.path", "ref.path.bare", "ref.missing", "from.alias", "where", "opt.pg"}
+	"un.minus", "un.tilde", "un.bang", "case.else", "case.noelse", "null.operand", "item.star", "ref.path", "ref.path.bare", "ref.missing", "from.alias", "where", "opt.pg", "naming.alias-unqualified", "naming.table-qualified"}
 
 func init() {
 	fw.Register(&fw.Prop{
@@ -53,9 +54,17 @@ func c02Proj(c *fw.Case) {
 	if c.Idx < 3*len(c02Forced) {
 		force = c02Forced[c.Idx%len(c02Forced)]
 	}
-	alias := ""
-	if force == "from.alias" || c.Chance(0.15) {
+	// the table may have an alias; the columns are then named with it - or,
+	// in a share of the cases, without it; an un-aliased table's columns may be
+	// named with the table's own name
+	alias, qualifier := "", ""
+	switch {
+	case force == "from.alias" || (force == "" && c.Chance(0.15)):
+		alias, qualifier = "x", "x"
+	case force == "naming.alias-unqualified" || (force == "" && c.Chance(0.07)):
 		alias = "x"
+	case force == "naming.table-qualified" || (force == "" && c.Chance(0.07)):
+		qualifier = "t1"
 	}
 	pg := &gen.PredGen{R: c.R, T: t, MaxDepth: 2, Disable: map[string]bool{"in.subquery": true}}
 	eg := &gen.ExprGen{R: c.R, T: t, PG: pg, MaxDepth: pick(c.Tier, 4, 5),
@@ -102,7 +111,7 @@ func c02Proj(c *fw.Case) {
 			items = append(items, gen.SelectItem{E: e, Alias: gen.AliasN(i)})
 		default:
 			eg.Force = ""
-			if f != "" && f != "from.alias" && f != "where" {
+			if f != "" && f != "from.alias" && f != "where" && !strings.HasPrefix(f, "naming.") && f != "opt.pg" {
 				eg.Force = f
 			}
 			items = append(items, gen.SelectItem{E: eg.Gen(), Alias: gen.AliasN(i)})
@@ -114,7 +123,7 @@ func c02Proj(c *fw.Case) {
 		where = pg.Gen()
 	}
 	var feats []string
-	ro := gen.RenderOpts{Quote: gen.Quoting(c.Intn(2)), StrStyle: c.Intn(2), Features: &feats, Qualifier: alias, BarePaths: force == "ref.path.bare" || c.Chance(0.3)}
+	ro := gen.RenderOpts{Quote: gen.Quoting(c.Intn(2)), StrStyle: c.Intn(2), Features: &feats, Qualifier: qualifier, BarePaths: force == "ref.path.bare" || c.Chance(0.3)}
 	// a share of the cases is spelled with double-quoted identifiers and run
 	// under PostgresEscapingDialect (the hostile literals hold quotes of every
 	// kind and backslashes): the values are what they are without the option
@@ -128,6 +137,12 @@ func c02Proj(c *fw.Case) {
 	if alias != "" {
 		sql += " " + alias
 		feats = append(feats, "from.alias")
+		if qualifier == "" {
+			feats = append(feats, "naming.alias-unqualified")
+		}
+	}
+	if qualifier == "t1" {
+		feats = append(feats, "naming.table-qualified")
 	}
 	if where != nil {
 		sql += " WHERE " + gen.RenderPred(where, ro)
